@@ -194,6 +194,15 @@ const RELS: [asp::Relation; 6] = [
 
 /// a small term over a bound variable, numerals and (integer) placeholders
 fn small_term(c: &mut Chooser, names: &Names, v: &str) -> asp::Term {
+    // one term in ten is a ground quotient or remainder with a negative dividend (`-3 \ 2`, `-7 / 2`): the
+    // translations round down, whatever the host language's operators do (choice vectors shorter than 184
+    // predate this)
+    if c.data.len() >= 184 && c.aux(150 + c.position() as u64, 10) == 0 {
+        let dividend = -(1 + c.aux(151 + c.position() as u64, 7) as isize);
+        let divisor = 2 + c.aux(152 + c.position() as u64, 2) as isize;
+        let op = if c.aux(153 + c.position() as u64, 2) == 0 { asp::BinaryOperator::Modulo } else { asp::BinaryOperator::Divide };
+        return binop(op, num(dividend), num(divisor));
+    }
     match c.next(9) {
         7 => match names.some_int_placeholder(c) {
             // a placeholder that occurs only inside arithmetic
@@ -788,6 +797,19 @@ pub fn specification(c: &mut Chooser, names: &Names) -> fol::Specification {
             formulas.push(annotated(fol::Role::Spec, d, "some", f));
         }
     }
+    // a ground specification formula written with the reverse arrow whose head is the only place a symbolic
+    // constant occurs in: `o(c) <- in(d)` (choice vectors shorter than 184 predate this)
+    if c.data.len() >= 184 && names.symbols.len() >= 2 && c.aux(171, 4) == 0 {
+        let o = names.outputs[c.aux(172, names.outputs.len())].clone();
+        let i = names.inputs[c.aux(173, names.inputs.len())].clone();
+        if o.1 == 1 && i.1 == 1 {
+            let k = c.aux(174, names.symbols.len());
+            let sym = |n: usize| fol::GeneralTerm::SymbolicTerm(fol::SymbolicTerm::Symbol(names.symbols[n % names.symbols.len()].clone()));
+            let f = fbin(fol::BinaryConnective::ReverseImplication, fatom(&o, sym(k)), fatom(&i, sym(k + 1)));
+            let d = [fol::Direction::Universal, fol::Direction::Backward, fol::Direction::Forward][c.aux(175, 3)];
+            formulas.push(annotated(fol::Role::Spec, d, "about_constant", f));
+        }
+    }
     // a specification that is silent about a propositional output predicate: the predicate then
     // occurs in some of the emitted problems only
     if let Some(last) = names.outputs.last() {
@@ -977,14 +999,22 @@ pub fn external_task_with(c: &mut Chooser, names: Names) -> ExternalTask {
     // different variant; every other generator works with predicates of arity 0 and 1 only
     if c.data.len() >= 180 && c.aux(101, 3) == 0 && task.names.inputs[0].1 == 1 {
         let i = task.names.inputs[0].0.clone();
-        let first = format!("p2(X,Y) :- e2(X,Y), {i}(X).");
+        // the binary output is called p2 - or, one time in three, like the first private predicate of the
+        // second program, which has another arity (`a/1` private, `a/2` public): names are told apart by
+        // arity everywhere (choice vectors shorter than 184 predate this)
+        let p2 = if c.data.len() >= 184 && c.aux(176, 3) == 0 && task.names.right_private.first().is_some_and(|q| q.1 == 1) {
+            task.names.right_private[0].0.clone()
+        } else {
+            "p2".to_string()
+        };
+        let first = format!("{p2}(X,Y) :- e2(X,Y), {i}(X).");
         let second = [
-            format!("p2(X,Y) :- {i}(X), e2(X,Y)."),
-            format!("p2(X,Y) :- e2(X,Y), {i}(X), X = X."),
-            "p2(X,Y) :- e2(X,Y).".to_string(),
-            format!("p2(Y,X) :- e2(X,Y), {i}(X)."),
-            format!("p2(X,Y) :- e2(X,Y), {i}(X), not e2(Y,X)."),
-            format!("p2(X,Y) :- e2(X,Y), {i}(X).\np2(X,X) :- e2(X,X)."),
+            format!("{p2}(X,Y) :- {i}(X), e2(X,Y)."),
+            format!("{p2}(X,Y) :- e2(X,Y), {i}(X), X = X."),
+            format!("{p2}(X,Y) :- e2(X,Y)."),
+            format!("{p2}(Y,X) :- e2(X,Y), {i}(X)."),
+            format!("{p2}(X,Y) :- e2(X,Y), {i}(X), not e2(Y,X)."),
+            format!("{p2}(X,Y) :- e2(X,Y), {i}(X).\n{p2}(X,X) :- e2(X,X)."),
         ][c.aux(102, 6)]
         .clone();
         if let Ok(p) = second.parse::<asp::Program>() {
@@ -997,23 +1027,39 @@ pub fn external_task_with(c: &mut Chooser, names: Names) -> ExternalTask {
                 }
             }
             (_, Some(spec)) => {
-                if let Ok(f) = format!("forall X Y (p2(X,Y) <-> e2(X,Y) and {i}(X))").parse::<fol::Formula>() {
+                if let Ok(f) = format!("forall X Y ({p2}(X,Y) <-> e2(X,Y) and {i}(X))").parse::<fol::Formula>() {
                     spec.formulas.push(annotated(fol::Role::Spec, fol::Direction::Universal, "about_p2", f));
                 }
             }
             _ => {}
         }
         task.user_guide.entries.push(fol::UserGuideEntry::InputPredicate(fol::Predicate { symbol: "e2".into(), arity: 2 }));
-        task.user_guide.entries.push(fol::UserGuideEntry::OutputPredicate(fol::Predicate { symbol: "p2".into(), arity: 2 }));
+        task.user_guide.entries.push(fol::UserGuideEntry::OutputPredicate(fol::Predicate { symbol: p2.clone(), arity: 2 }));
         task.names.inputs.push(("e2".to_string(), 2));
-        task.names.outputs.push(("p2".to_string(), 2));
+        task.names.outputs.push((p2.clone(), 2));
+    }
+    // one task in four with an integer placeholder: a sanity check on the placeholder, a constraint without
+    // any atom (`:- n < 1.`), in the second program and, half of the time, in the first as well (choice
+    // vectors shorter than 184 predate this)
+    if c.data.len() >= 184 && c.aux(177, 4) == 0 {
+        if let Some((n, _)) = task.names.placeholders.iter().find(|p| p.1 == fol::Sort::Integer) {
+            let text = [format!(":- {n} < 1."), format!(":- {n} > 2."), format!(":- {n} = 0."), format!(":- 2*{n} < 1, {n} != 5.")][c.aux(178, 4)].clone();
+            if let Ok(r) = text.parse::<asp::Rule>() {
+                task.right.rules.push(r.clone());
+                if c.aux(179, 2) == 0 {
+                    if let Some(p) = task.left_program.as_mut() {
+                        p.rules.push(r);
+                    }
+                }
+            }
+        }
     }
     // one program-vs-program task in eight: the second program has lost every rule of every output
     // predicate (a draft that does not derive its outputs yet): several declared output predicates occur
     // on one side only
     if c.data.len() >= 180 && c.aux(103, 8) == 0 && task.left_program.is_some() && task.names.outputs.len() >= 2 {
-        let outputs: Vec<String> = task.names.outputs.iter().map(|o| o.0.clone()).collect();
-        task.right.rules.retain(|r| !r.head.predicate().is_some_and(|h| outputs.contains(&h.symbol)));
+        let outputs: Vec<Pred> = task.names.outputs.clone();
+        task.right.rules.retain(|r| !r.head.predicate().is_some_and(|h| outputs.contains(&(h.symbol.clone(), h.arity))));
         task.mutation = "all-output-rules-dropped";
     }
     // one task in five with an integer placeholder: a ground comparison between the placeholder and a
